@@ -33,6 +33,12 @@ def contract(cfg: Dict[str, Any], events: List[List[Any]], status: str) -> List[
     seen = lambda w, k, x: (w, k, x) in pos
     p = lambda w, k, x: pos[(w, k, x)][0]
     bad: List[str] = []
+    # a genuine error raised by the main visitor's depart_* reaches the caller (and only then is the traversal abandoned)
+    raised = any(prune[x - 1] == "DepartError" and seen("main", "depart", x) for x in range(1, n + 1))
+    if raised != (status == "failed"):
+        bad.append("ErrorsSurface")
+    if status == "failed":
+        return bad
     if any(len(v) > 1 for v in pos.values()):
         bad.append("EnteredAtMostOnce")
     if status != "done":
@@ -97,6 +103,10 @@ def contract(cfg: Dict[str, Any], events: List[List[Any]], status: str) -> List[
     return bad
 
 
+class _Boom(Exception):
+    """The genuine error a depart_* method raises in the DepartError configurations."""
+
+
 # ------------------------------------------------------------------------- real Visitor on a config
 def run_real(cfg: Dict[str, Any]) -> Tuple[List[List[Any]], str]:
     from pydoctor import visitor as V
@@ -121,13 +131,15 @@ def run_real(cfg: Dict[str, Any]) -> Tuple[List[List[Any]], str]:
         def visit_Nd(self, ob):
             events.append(["main", "visit", ob.i])
             k = prune[ob.i - 1]
-            if k not in ("none", "DepartSkipSiblings"):
+            if k not in ("none", "DepartSkipSiblings", "DepartError"):
                 raise getattr(self, k)()
 
         def depart_Nd(self, ob):
             events.append(["main", "depart", ob.i])
             if prune[ob.i - 1] == "DepartSkipSiblings":
                 raise self.SkipSiblings()
+            if prune[ob.i - 1] == "DepartError":
+                raise _Boom(ob.i)
 
     def mk(tag: str):
         class E(V.VisitorExt):  # type: ignore[type-arg]
@@ -148,7 +160,7 @@ def run_real(cfg: Dict[str, Any]) -> Tuple[List[List[Any]], str]:
         vis = Main(V.ExtList())
         try:
             getattr(vis, cfg["mode"])(nodes[1])
-        except V.Visitor._TreePruningException:
+        except (V.Visitor._TreePruningException, _Boom):
             pass
         del events[:]
         vis.extensions.add(*[mk(t) for t in order])
@@ -160,6 +172,8 @@ def run_real(cfg: Dict[str, Any]) -> Tuple[List[List[Any]], str]:
         getattr(vis, cfg["mode"])(nodes[1])
     except V.Visitor._TreePruningException:
         status = "escaped"
+    except _Boom:
+        status = "failed"
     return events, status
 
 
@@ -304,6 +318,7 @@ INVARIANT WellNested
 INVARIANT DocumentedOrder
 INVARIANT SameNodesForAll
 INVARIANT PruningMeans
+INVARIANT ErrorsSurface
 """
 CFG_FILE = """SPECIFICATION Spec
 CONSTANTS MaxN = 0
@@ -369,7 +384,11 @@ def run(ctx: Ctx) -> int:
               "from typing import overload\n@overload\ndef f(a: int) -> int: ...\n@overload\ndef f(a: str) -> str: ...\ndef f(a): return a\n",
               # expression statements whose value has a `body` that is an expression, not a statement list
               "class Plugin:\n    register() if enabled else None\n    def m(self): pass\n", "class Holder:\n    lambda: 0\n    x = 1\n",
-              "a if b else c\nlambda x: (yield)\n", "class K:\n    [i for i in ()]\n    {1: 2}\n    (a := 1)\n    await_ = 1\n"]
+              "a if b else c\nlambda x: (yield)\n", "class K:\n    [i for i in ()]\n    {1: 2}\n    (a := 1)\n    await_ = 1\n",
+              # zope.interface: interfaces created by calling an InterfaceClass, also through a chained assignment
+              "from zope.interface.interface import InterfaceClass\nclass MyInterfaceClass(InterfaceClass):\n    pass\n"
+              "IFoo = MyInterfaceClass('IFoo')\nIA = IB = MyInterfaceClass('IA')\nIC: object = MyInterfaceClass('IC')\nclass After:\n    pass\nLAST = 1\n",
+              "from zope.interface import Interface, implementer\nclass IX(Interface):\n    def m(): 'doc'\n@implementer(IX)\nclass X:\n    def m(self): pass\nIY = IZ = Interface\n"]
     for i in range(nmod + len(corner)):
         src = corner[i] if i < len(corner) else pygen.gen_module(rng, depth=3, max_stmts=3)
         try:
